@@ -27,7 +27,9 @@ fn any_reason() -> ScheduleReason {
 fn wakes(p: PauseReason, reason: ScheduleReason) -> bool {
     match reason {
         ScheduleReason::Init | ScheduleReason::Ready => true,
-        ScheduleReason::NewFilter | ScheduleReason::FreshData => p == PauseReason::Caughtup,
+        ScheduleReason::NewFilter => p == PauseReason::Caughtup,
+        // fresh data also stands for replies waiting to be flushed (C06): it wakes everything but a busy link
+        ScheduleReason::FreshData => p != PauseReason::Busy,
         ScheduleReason::IncomingAck => p != PauseReason::Busy,
     }
 }
